@@ -236,6 +236,38 @@ def r4(ctx, prog):
     ctx.ob('C14.R4', '%s|one-fetch' % f.name, ok, 'exactly one fetchNoCopy(content_size) between the header and the returned position', where=f.loc(f.body))
 
 
+def r13(ctx, prog):
+    ctx.rule('C14.R13', 'A5 framing state: what onRecvData decides depends on the bytes it is given; if a framing keeps a data member between calls, that member is brought back '
+             'to its initial value on every exit that consumes bytes or reports an error (the caller then drops or shifts its buffer, which the kept state knows nothing about)', floor=3)
+    for pn in PROTOS:
+        f = prog.fn1(NS + pn + '::onRecvData')
+        cls = NS + pn
+        kept = {}
+        for st in f.stmts:
+            if st and st['k'] == 'MemberExpr' and st.get('mk') == 'field' and st.get('q', '').startswith(cls + '::') and locks.classify_access(f, st['i']) == 'w':
+                kept.setdefault(st['q'], []).append(st)
+        if not kept:
+            ctx.ob('C14.R13', '%s|stateless' % f.name, True, 'keeps no data member between calls', where=f.loc(f.body))
+            continue
+        for fq, ws in sorted(kept.items()):
+            short = fq.split('::')[-1]
+            resets = [a for a, rhs in q.assigns(f, short) if (f.s(f.strip_casts(rhs)) or {}).get('cv') == 0]
+            bad = []
+            for r in q.returns(f):
+                v = q.return_const(f, r)
+                if v == 0:
+                    continue
+                # every path to this exit passes a reset after the last other write
+                others = [q.pt(f, w) for w in ws if not any(w['i'] in set(f.walk(a['i'])) for a in resets)]
+                rp = q.pt(f, r)
+                if f.cfg.exists_path(f.cfg.entry_point(), rp, avoid=q.pts(f, resets)) or any(o is not None and f.cfg.exists_path(o, rp, avoid=q.pts(f, resets)) for o in others):
+                    bad.append(f.loc(r['i']))
+            ctx.ob('C14.R13', '%s|%s-reset-on-consume-or-error' % (f.name, short), not bad,
+                   '%s is reset on every exit that consumes bytes or reports an error' % short if not bad else
+                   '%s survives the exit(s) at %s: after an error or a consumed message the caller changes its buffer, and the next call decides from state that describes '
+                   'the old one (valid messages are then not decoded)' % (short, ', '.join(bad[:3])), where=f.loc(ws[0]['i']))
+
+
 def r5_r6(ctx, prog):
     ctx.rule('C14.R5', 'A4+A12: complete-then-erase: the completion callback is looked up by id, invoked only when found, and the entry is '
                        'erased on every path of the found branch — identically for response and timeout; request() registers callback and timeout together', floor=5)
@@ -350,6 +382,7 @@ def run(ctx):
     ctx.guard(r8, ctx, prog)
     ctx.guard(tmon.run, ctx, prog, 'C14.R9')
     ctx.guard(tmon.run_users, ctx, prog, 'C14.R12', RPC)
+    ctx.guard(r13, ctx, prog)
     ctx.guard(harden.run_json_narrowing, ctx, prog, 'C14.R11', [prog.fn1(NS + 'Proto::onRecvJson')] + [prog.fn1(RPC + '::' + n) for n in ('onRecvRequest', 'onRecvRespond')],
               lambda g: g.file.startswith(MODULES + '/jsonrpc/') or g.file.startswith(MODULES + '/util/'), 'JSON-RPC receive path')
     ctx.guard(harden.run, ctx, prog, 'C14.R10', [prog.fn1(NS + p + '::onRecvData') for p in PROTOS] + [prog.fn1(NS + 'Proto::onRecvJson')] +
